@@ -14,6 +14,7 @@ limitations under the License.
 package metadata
 
 import (
+	"errors"
 	"fmt"
 	"reflect"
 	"strings"
@@ -122,6 +123,9 @@ func resolveAliases(md map[string]string, t reflect.Type) error {
 	}
 
 	// Error if result is not pointer to struct, or pointer to pointer to struct
+	if t == nil {
+		return errors.New("not a pointer: nil")
+	}
 	if t.Kind() != reflect.Pointer {
 		return fmt.Errorf("not a pointer: %s", t.Kind().String())
 	}
